@@ -481,6 +481,14 @@ func (g *pkGen) aliasKs(kind string, ap []string) []int {
 	return ks
 }
 
+// A dot symbol handed to a user function is resolved in the callee, where a
+// let-bound or parameter alias of the caller is not in scope ("symbol zq not
+// found"): argument evaluation / scoping, not package visibility, so the
+// user-function route is not combined with local aliases.
+func pkKindRoute(kind, rt string) bool {
+	return !(rt == "uarg" && (kind == "let" || kind == "param"))
+}
+
 func pkRouteApplies(rt string, n, parent *pkNode, plen int) bool {
 	switch rt {
 	case "plus":
@@ -759,12 +767,18 @@ func (g *pkGen) plans(kinds, routes []string, every, allK bool, nrot int) func(p
 		}
 		var out []pkPlan
 		for _, kind := range kinds {
-			rts := app
+			rts := []string{}
+			for _, rt := range app {
+				if pkKindRoute(kind, rt) {
+					rts = append(rts, rt)
+				}
+			}
+			app := rts
 			if !every && len(app) > nrot {
 				rts = nil
+				c++
 				for i := 0; i < nrot; i++ {
-					c++
-					rts = append(rts, app[c%len(app)])
+					rts = append(rts, app[(c+i)%len(app)])
 				}
 			}
 			for _, rt := range rts {
@@ -795,7 +809,7 @@ func (g *pkGen) plansRand(r *rng, nr int, routes []string) func(p []string) []pk
 		for i := 0; i < nr; i++ {
 			kind := pick(r, pkAliasKinds)
 			rt := pick(r, routes)
-			if !pkRouteApplies(rt, n, parent, len(p)) {
+			if !pkRouteApplies(rt, n, parent, len(p)) || !pkKindRoute(kind, rt) {
 				continue
 			}
 			ap := p
